@@ -67,6 +67,17 @@ Section Sample.
                                    (cross_all (map (fun k => cmeas k x r) kids))) dom2
         end
     end.
+  (* every normaliser the sampler can meet on row r is non-zero (boolean form of SampleClt.nz) *)
+  Variable teqb : T -> T -> bool.
+  Fixpoint nzb (t : ctree T) (pv : Z) (r : row) : bool :=
+    match t with
+    | CT v cpt kids =>
+        match r v with
+        | Some x => forallb (fun k => nzb k x r) kids
+        | None => negb (teqb (up (CT v cpt kids) pv r) t0) &&
+                  forallb (fun k => nzb k 0%Z r && nzb k 1%Z r) kids
+        end
+    end.
   (* as a leaf of a circuit: the evidence likelihood times the sampler's law *)
   Definition clt_meas (c : clt T) (r : row) : meas :=
     scale (clt_val T t0 t1 tadd tmul c r) (cmeas (clt_tree T t0 c) 0%Z r).
